@@ -20,7 +20,7 @@ Proof. exact step_frame. Qed.
    not affected by later mutation of the list and vice versa. *)
 Example C18_history_example :
   run (wi 0) [] ex_alias_ops =
-    [OSlice [wi 7; wi 8; wi 9]; OLst [wi 3; wi 4; wi 3; wi 4]; OSet 0 [wi 1; wi 2; wi 3]; OStk 16 [wi 1; wi 2; wi 3];
+    [OSlice [wi 7; wi 8; wi 9]; OLst [wi 3; wi 4; wi 3; wi 4]; OSet 0 [wi 1; wi 2; wi 3]; OStk default_stack_cap [wi 1; wi 2; wi 3];
      OSlice [wi 5; wi 2; wi 3]; OArr [wi 0; wi 2]; OArr [wi 1; wi 2]].
 Proof. vm_compute; reflexivity. Qed.
 
